@@ -341,6 +341,11 @@ def main(tier):
                 if not isinstance(again, tuple) or again[1] != again[0]:
                     ck.count("block-unstable-without-history")
                     continue
+                # must be reproducible as an effect of H, twice, to count
+                rep = [trial(name, bss, H) for _ in range(2)]
+                if not all(isinstance(x, tuple) and (x[1] != x[0] or x[2] != x[0]) for x in rep):
+                    ck.count("unreproducible-difference-ignored")
+                    continue
                 culprit, sig = None, "C10:%s:untracked-state" % name
             else:
                 ins = decode_block(isas[first[0]], [first[1]])
